@@ -270,12 +270,19 @@ bus0_sock_send(void *arg, nni_aio *aio)
 	uint32_t   sender = 0;
 	size_t     len;
 
+	nni_mtx_lock(&s->mtx);
+
+	// this test is so that we detect when the aio itself is terminated,
+	// otherwise we could loop forever.  If the aio is refused the
+	// message stays with it, untouched: it still belongs to the caller.
+	if (!nni_aio_start(aio, NULL, NULL)) {
+		nni_mtx_unlock(&s->mtx);
+		return;
+	}
+
 	msg = nni_aio_get_msg(aio);
 	len = nni_msg_len(msg);
 	nni_aio_set_msg(aio, NULL);
-
-	// this test is so that we detect when the aio itself is terminated,
-	// otherwise we could loop forever.
 
 	if (s->raw) {
 		// In raw mode, we look for the message header, to see if it
@@ -287,13 +294,6 @@ bus0_sock_send(void *arg, nni_aio *aio)
 	} else {
 		// In cooked mode just strip the header.
 		nni_msg_header_clear(msg);
-	}
-
-	nni_mtx_lock(&s->mtx);
-
-	if (!nni_aio_start(aio, NULL, NULL)) {
-		nni_mtx_unlock(&s->mtx);
-		return;
 	}
 
 	NNI_LIST_FOREACH (&s->pipes, pipe) {
